@@ -202,6 +202,12 @@ class Ctx:
             break
         if bad is None:
             return True
+        if os.environ.get("VERIF_COLLECT"):
+            # triage mode: list every distinct unlisted failure instead of stopping at the first
+            for f in fails:
+                if self.known.match(f.sig) is None:
+                    self.stats.known_examples.setdefault("COLLECT " + f.sig, {"sig": f.sig, "detail": f.detail[:600]})
+            return True
         if bad.index is not None and isinstance(case, list):
             case = [case[bad.index]]
         payload = {"property": self.pid, "check": name, "case": case, "sig": bad.sig,
@@ -265,6 +271,25 @@ def isolate_abort(nl, prelude, srcs, fuel=300_000, timeout=60):
                 else:
                     break
         if dead == 2:
+            return i
+    return None
+
+
+def isolate_hang(nl, prelude, srcs, fuel=300_000, timeout=20):
+    """A batch did not answer within the watchdog. Re-run one expression at a time with a generous
+    per-expression limit; return the index of the first one that exceeds it twice, else None."""
+    for i, src in enumerate(srcs):
+        slow = 0
+        for _ in range(2):
+            try:
+                nl.run(list(prelude) + [src], fuel=fuel, timeout=timeout, stop_on_panic=False)
+                break
+            except Inconclusive as e:
+                if e.kind == "hang":
+                    slow += 1
+                else:
+                    break
+        if slow == 2:
             return i
     return None
 
@@ -463,6 +488,10 @@ def main_run(modname, tier, seed, nworkers=None):
         write_evidence(mod, tier, seed, stats, wall, 0, notes="inconclusive: %s" % inconc[0][3]["detail"][:500])
         print("INCONCLUSIVE property=%s %s" % (pid, inconc[0][3]["kind"]))
         return 2
+    if os.environ.get("VERIF_COLLECT"):
+        for k, v in sorted(stats.known_examples.items()):
+            if k.startswith("COLLECT "):
+                print("COLLECTED %s :: %s" % (v["sig"], v["detail"]))
     post = getattr(mod, "postcheck", None)
     if post is not None:
         msg = post(stats, tier)
